@@ -98,6 +98,14 @@ class EvalMixin(InterpBase):
             return str(x)
         if is_z3(x) and z3.is_int(x):
             # str(int) for non-negative values is z3's int.to.str; negative handled with a sign
+            if getattr(self.top, "regex_decomposition", False):
+                # language-level reading: str(int) is an injective function into (-)?digits (no arithmetic meaning needed)
+                f = z3.Function("py_str_of_int", z3.IntSort(), z3.StringSort())
+                d = f(x)
+                self.run.assume(z3.Implies(x >= 0, z3.InRe(d, z3.Plus(z3.Range("0", "9")))))
+                self.run.assume(z3.InRe(d, z3.Concat(z3.Option(z3.Re("-")), z3.Plus(z3.Range("0", "9")))))
+                self.trusted.add("engine: str(int) is a function into optional-minus-plus-digits (digits only for n >= 0)")
+                return d
             return z3.If(x >= 0, z3.IntToStr(x), z3.Concat(z3.StringVal("-"), z3.IntToStr(-x)))
         if isinstance(x, OptV):
             raise Unsupported("str() of Optional")
